@@ -1,52 +1,66 @@
 /-
-  Encoder IR, compiler correctness (9): string-keyed maps (compileMap / compileMapBody), sorted or in iteration order.
+  Encoder IR, compiler correctness (9): maps with string / integer keys (compileMap / compileMapBody), sorted or in
+  iteration order.
 -/
 import SonicSpec.Proofs.IrMapLoop
 namespace SonicSpec.Ir
 open SonicSpec SonicSpec.Go SonicSpec.Enc SonicSpec.Json
 variable {o : EncOpts} {co : COpts}
 
-/-- compileMap / compileMapBody for a string key, the two copies of the value's code given -/
-def mapCode (t : GoType) (pc : Nat) (v1 v2 : Program) : Program :=
-  [Instr.isNil (pc + 11 + v1.length + 6 + v2.length + 1 + 4), Instr.byte 123, Instr.isZeroMap (pc + 11 + v1.length + 6 + v2.length + 1 + 2),
-    Instr.save false, Instr.mapIter (.map .str t), Instr.save false, Instr.mapCheckKey (pc + 11 + v1.length + 6 + v2.length + 1)] ++
-  ([Instr.mapWriteKey (pc + 7 + 2), Instr.str, Instr.byte 58, Instr.mapValueNext] ++ v1) ++
-  [Instr.mapCheckKey (pc + 11 + v1.length + 6 + v2.length + 1), Instr.byte 44] ++
-  ([Instr.mapWriteKey (pc + 11 + v1.length + 2 + 2), Instr.str, Instr.byte 58, Instr.mapValueNext] ++ v2) ++
-  [Instr.goto (pc + 11 + v1.length), Instr.mapStop, Instr.drop2, Instr.byte 125, Instr.goto (pc + 11 + v1.length + 6 + v2.length + 1 + 5),
-    Instr.emptyObj]
+/-- compileMap / compileMapBody, the two copies of the value's code given -/
+def mapCode (k t : GoType) (pc : Nat) (v1 v2 : Program) : Program :=
+  [Instr.isNil (pc + 7 + 1 + (keyCode k).length + 2 + v1.length + 2 + 1 + (keyCode k).length + 2 + v2.length + 1 + 4), Instr.byte 123,
+    Instr.isZeroMap (pc + 7 + 1 + (keyCode k).length + 2 + v1.length + 2 + 1 + (keyCode k).length + 2 + v2.length + 1 + 2),
+    Instr.save false, Instr.mapIter (.map k t), Instr.save false,
+    Instr.mapCheckKey (pc + 7 + 1 + (keyCode k).length + 2 + v1.length + 2 + 1 + (keyCode k).length + 2 + v2.length + 1)] ++
+  ([Instr.mapWriteKey (pc + 7 + 1 + (keyCode k).length)] ++ keyCode k ++ [Instr.byte 58, Instr.mapValueNext] ++ v1) ++
+  [Instr.mapCheckKey (pc + 7 + 1 + (keyCode k).length + 2 + v1.length + 2 + 1 + (keyCode k).length + 2 + v2.length + 1), Instr.byte 44] ++
+  ([Instr.mapWriteKey (pc + 7 + 1 + (keyCode k).length + 2 + v1.length + 2 + 1 + (keyCode k).length)] ++ keyCode k ++
+    [Instr.byte 58, Instr.mapValueNext] ++ v2) ++
+  [Instr.goto (pc + 7 + 1 + (keyCode k).length + 2 + v1.length), Instr.mapStop, Instr.drop2, Instr.byte 125,
+    Instr.goto (pc + 7 + 1 + (keyCode k).length + 2 + v1.length + 2 + 1 + (keyCode k).length + 2 + v2.length + 1 + 5), Instr.emptyObj]
 
-theorem code_map_str (pc sp : Nat) (pv : Bool) (t : GoType) :
-    code co pc sp pv (.map .str t) =
-      mapCode t pc (code co (pc + 7 + 4) (sp + 2) false t)
-        (code co (pc + 11 + (code co (pc + 7 + 4) (sp + 2) false t).length + 2 + 4) (sp + 2) false t) := by
-  rw [code]
-  simp only [keyCode, mapCode, List.length_cons, List.length_nil]
-  have e1 : pc + 8 + (0 + 1) + 2 = pc + 7 + 4 := by omega
+theorem code_map (lib : LibCode) (tab : List GoType) (pc sp : Nat) (pv : Bool) (k t : GoType) (hnh : tabHas tab (.map k t) = false) :
+    code co lib tab pc sp pv (.map k t) =
+      mapCode k t pc (code co lib (.map k t :: tab) (pc + 7 + 1 + (keyCode k).length + 2) (sp + 2) false t)
+        (code co lib (.map k t :: tab)
+          (pc + 7 + 1 + (keyCode k).length + 2 + (code co lib (.map k t :: tab) (pc + 7 + 1 + (keyCode k).length + 2) (sp + 2) false t).length + 2 + 1 +
+            (keyCode k).length + 2) (sp + 2) false t) := by
+  rw [code, if_neg (by simp [hnh])]
+  simp only [mapCode]
+  generalize (keyCode k).length = n
+  have e1 : pc + 8 + n + 2 = pc + 7 + 1 + n + 2 := by omega
   rw [e1]
-  generalize code co (pc + 7 + 4) (sp + 2) false t = v1
-  have e2 : pc + 8 + (0 + 1) + 2 + v1.length + 3 + (0 + 1) + 2 = pc + 11 + v1.length + 2 + 4 := by omega
+  generalize code co lib (.map k t :: tab) (pc + 7 + 1 + n + 2) (sp + 2) false t = v1
+  have e2 : pc + 7 + 1 + n + 2 + v1.length + 3 + n + 2 = pc + 7 + 1 + n + 2 + v1.length + 2 + 1 + n + 2 := by omega
   rw [e2]
-  generalize code co (pc + 11 + v1.length + 2 + 4) (sp + 2) false t = v2
-  simp only [List.append_assoc, List.cons_append, List.nil_append]
+  generalize code co lib (.map k t :: tab) (pc + 7 + 1 + n + 2 + v1.length + 2 + 1 + n + 2) (sp + 2) false t = v2
+  have e3 : pc + 8 + n = pc + 7 + 1 + n := by omega
+  have e4 : pc + 7 + 1 + n + 2 + v1.length + 3 + n = pc + 7 + 1 + n + 2 + v1.length + 2 + 1 + n := by omega
+  simp only [e3, e4, List.append_assoc, List.cons_append, List.nil_append]
 
-
-theorem keyBodies_str : ∀ (es : List (Bytes × JVal)), keyBodies o .str es = .ok (es.map (qk o)) := by
+theorem keyBodies_sub {k : GoType} (hk : keySub k = true) : ∀ (es : List (Bytes × JVal)), keyBodies o k es = .ok (es.map (qk o)) := by
+  have htk : isTextKey k = false := by
+    cases k <;> first | rfl | (simp [keySub] at hk)
   intro es
   induction es with
   | nil => rfl
   | cons e r ih =>
     obtain ⟨ks, j⟩ := e
-    simp only [keyBodies, keyBody, isTextKey, Bool.and_false, Bool.false_eq_true, if_false, ih, bind, Except.bind, pure, Except.pure,
+    simp only [keyBodies, keyBody, htk, Bool.and_false, Bool.false_eq_true, if_false, ih, bind, Except.bind, pure, Except.pure,
       List.map_cons, qk]
 
-/-- the error of a value's code is the specification's, whatever the program around it -/
-theorem codeOK_err_kind {T : GoType} {v : GoVal} (h : CodeOK o co T v) (hn : need T ≤ maxStack) {addr : Bool} {e : EErr}
-    (he : encV o addr T v = .error e) : e = .unsupportedValue :=
-  ((h addr false (code co 0 0 false T) 0 0 false (Regs.start (.val v)) [] [] (At.whole _) rfl (by simpa using hn)).2 e he).1
+theorem keyTypeOK_sub {k : GoType} (hk : keySub k = true) : keyTypeOK k = true := by
+  cases k <;> first | rfl | (simp [keySub] at hk)
 
-theorem encIt_err_kind {t : GoType} : ∀ (l : Iter), (∀ x ∈ l, ∀ e, encV o false t x.2 = .error e → e = .unsupportedValue) →
-    ∀ e, encIt o t l = .error e → e = .unsupportedValue := by
+/-- the error of a value's code is the specification's, whatever the program around it -/
+theorem codeOK_err_kind {T : GoType} {v : GoVal} (h : CodeOK o co T v) (hn : needV T v ≤ maxStack) {addr : Bool} {e : EErr}
+    (he : encV o addr T v = .error e) : e = .unsupportedValue :=
+  ((h libNames.length [] (Nat.le_of_eq libLeft_nil) addr false (compile co T false) 0 0 false (Regs.start (.val v)) [] [] (At.whole _) rfl
+    (by simpa using hn)).2 e he).1
+
+theorem encIt_err_kind {t : GoType} {kt : GoVal × GoVal → Bytes} : ∀ (l : Iter), (∀ x ∈ l, ∀ e, encV o false t x.2 = .error e → e = .unsupportedValue) →
+    ∀ e, encIt o t kt l = .error e → e = .unsupportedValue := by
   intro l
   induction l with
   | nil => intro _ e h; simp only [encIt] at h; cases h
@@ -68,25 +82,24 @@ theorem encIt_err_kind {t : GoType} : ∀ (l : Iter), (∀ x ∈ l, ∀ e, encV 
         exact ih (fun y hy => hall y (by simp [hy])) _ hr
       · cases h
 
-theorem codeOK_map_nil (t : GoType) : CodeOK o co (.map .str t) .nil := by
-  intro addr fpv P pc sp pv r s b hat hg _
-  rw [code_map_str] at hat ⊢
-  generalize code co (pc + 7 + 4) (sp + 2) false t = v1 at hat ⊢
-  generalize code co (pc + 11 + v1.length + 2 + 4) (sp + 2) false t = v2 at hat ⊢
+theorem codeOK_map_nil {k : GoType} (hk : keySub k = true) (t : GoType) : CodeOKn o co (.map k t) .nil := by
+  intro lv tab _hlv hnh addr fpv P pc sp pv r s b hat hg _hs
+  rw [code_map _ _ _ _ _ _ _ hnh] at hat ⊢
+  generalize code co (libK co lv) (.map k t :: tab) (pc + 7 + 1 + (keyCode k).length + 2) (sp + 2) false t = v1 at hat ⊢
+  generalize code co (libK co lv) (.map k t :: tab) (pc + 7 + 1 + (keyCode k).length + 2 + v1.length + 2 + 1 + (keyCode k).length + 2) (sp + 2) false t = v2 at hat ⊢
   unfold mapCode at hat ⊢
   have hA := hat.left.left.left.left
-  have hL6 := At.right' (q := pc + 11 + v1.length + 6 + v2.length) hat (by simp <;> omega)
+  have hL6 := At.right' (q := pc + 7 + 1 + (keyCode k).length + 2 + v1.length + 2 + 1 + (keyCode k).length + 2 + v2.length) hat (by simp <;> omega)
   constructor
   · intro j hj res h
-    simp only [encV, keyTypeOK, if_true] at hj
+    simp only [encV, keyTypeOK_sub hk, if_true] at hj
     injection hj with hj; subst hj
     refine halts_step (hA.get 0 (by omega) rfl) (by simp only [step, hg, jumpIf]; rfl) ?_
     refine halts_step (hL6.get 5 (by omega) rfl) (by simp only [step]; rfl) ?_
     exact halts_cast h (by simp <;> omega) rfl rfl rfl
-  · intro e he; simp only [encV, keyTypeOK, if_true] at he; cases he
+  · intro e he; simp only [encV, keyTypeOK_sub hk, if_true] at he; cases he
 
-
-theorem ConfM_keys {t : GoType} : ∀ (kvs : List (GoVal × GoVal)), ConfM .str t kvs = true → ∀ e ∈ kvs, ∃ ks, e.1 = GoVal.str ks := by
+theorem ConfM_keys {c0 : COpts} {k t : GoType} : ∀ (kvs : List (GoVal × GoVal)), ConfM c0 k t kvs = true → ∀ e ∈ kvs, Conf c0 k e.1 = true := by
   intro kvs
   induction kvs with
   | nil => intro _ e he; cases he
@@ -95,44 +108,63 @@ theorem ConfM_keys {t : GoType} : ∀ (kvs : List (GoVal × GoVal)), ConfM .str 
     obtain ⟨a, v⟩ := x
     simp only [ConfM, Bool.and_eq_true] at h
     rcases List.mem_cons.mp he with he | he
-    · subst he
-      cases a <;> try (simp [Conf] at h; done)
-      exact ⟨_, rfl⟩
+    · subst he; exact h.1.1
     · exact ih h.2 e he
 
-theorem codeOK_map {t : GoType} (kvs : List (GoVal × GoVal)) (hC : ConfM .str t kvs = true)
-    (hall : ∀ e ∈ kvs, CodeOK o co t e.2) : CodeOK o co (.map .str t) (.map kvs) := by
-  intro addr fpv P pc sp pv r s b hat hg hs
-  simp only [need] at hs
-  rw [code_map_str] at hat ⊢
-  generalize hv1 : code co (pc + 7 + 4) (sp + 2) false t = v1 at hat ⊢
-  generalize hv2 : code co (pc + 11 + v1.length + 2 + 4) (sp + 2) false t = v2 at hat ⊢
+theorem needM_mem {t : GoType} : ∀ (kvs : List (GoVal × GoVal)), ∀ e ∈ kvs, needV t e.2 ≤ needM t kvs := by
+  intro kvs
+  induction kvs with
+  | nil => intro e he; cases he
+  | cons x r ih =>
+    intro e he
+    obtain ⟨a, v⟩ := x
+    simp only [needM]
+    rcases List.mem_cons.mp he with he | he
+    · subst he; simp only; omega
+    · have := ih e he; omega
+
+theorem mem_rend {k : GoType} {kvs : Iter} {x : GoVal × GoVal} (h : x ∈ rend k kvs) : ∃ e ∈ kvs, x = (GoVal.str (ktOf k e), e.2) := by
+  unfold rend at h
+  obtain ⟨e, he, rfl⟩ := List.mem_map.mp h
+  exact ⟨e, he, rfl⟩
+
+theorem codeOK_map {k t : GoType} (hk : keySub k = true) (kvs : List (GoVal × GoVal)) (hC : ConfM co k t kvs = true)
+    (hall : ∀ e ∈ kvs, CodeOK o co t e.2) : CodeOKn o co (.map k t) (.map kvs) := by
+  intro lv tab hlv hnh addr fpv P pc sp pv r s b hat hg hs
+  simp only [needV] at hs
+  have hlv' : libLeft (.map k t :: tab) ≤ lv := Nat.le_trans (libLeft_cons_le _ _) hlv
+  rw [code_map _ _ _ _ _ _ _ hnh] at hat ⊢
+  generalize hv1 : code co (libK co lv) (.map k t :: tab) (pc + 7 + 1 + (keyCode k).length + 2) (sp + 2) false t = v1 at hat ⊢
+  generalize hv2 : code co (libK co lv) (.map k t :: tab) (pc + 7 + 1 + (keyCode k).length + 2 + v1.length + 2 + 1 + (keyCode k).length + 2) (sp + 2) false t = v2 at hat ⊢
+  generalize hn : (keyCode k).length = n at hat hv1 hv2 ⊢
   unfold mapCode at hat ⊢
+  rw [hn] at hat ⊢
   have hA := hat.left.left.left.left
   have hE1 := At.right' (q := pc + 7) hat.left.left.left (by simp)
-  have hL2 := At.right' (q := pc + 11 + v1.length) hat.left.left (by simp <;> omega)
-  have hE2 := At.right' (q := pc + 11 + v1.length + 2) hat.left (by simp <;> omega)
-  have hL6 := At.right' (q := pc + 11 + v1.length + 6 + v2.length) hat (by simp <;> omega)
-  have hlen : pc + ([Instr.isNil (pc + 11 + v1.length + 6 + v2.length + 1 + 4), Instr.byte 123, Instr.isZeroMap (pc + 11 + v1.length + 6 + v2.length + 1 + 2),
-      Instr.save false, Instr.mapIter (.map .str t), Instr.save false, Instr.mapCheckKey (pc + 11 + v1.length + 6 + v2.length + 1)] ++
-    ([Instr.mapWriteKey (pc + 7 + 2), Instr.str, Instr.byte 58, Instr.mapValueNext] ++ v1) ++
-    [Instr.mapCheckKey (pc + 11 + v1.length + 6 + v2.length + 1), Instr.byte 44] ++
-    ([Instr.mapWriteKey (pc + 11 + v1.length + 2 + 2), Instr.str, Instr.byte 58, Instr.mapValueNext] ++ v2) ++
-    [Instr.goto (pc + 11 + v1.length), Instr.mapStop, Instr.drop2, Instr.byte 125, Instr.goto (pc + 11 + v1.length + 6 + v2.length + 1 + 5),
-      Instr.emptyObj]).length = pc + 11 + v1.length + 6 + v2.length + 1 + 5 := by
-    simp <;> omega
-  rw [hlen]
+  have hL2 := At.right' (q := pc + 7 + 1 + n + 2 + v1.length) hat.left.left (by simp <;> omega)
+  have hE2 := At.right' (q := pc + 7 + 1 + n + 2 + v1.length + 2) hat.left (by simp <;> omega)
+  have hL6 := At.right' (q := pc + 7 + 1 + n + 2 + v1.length + 2 + 1 + n + 2 + v2.length) hat (by simp <;> omega)
+  have hlen : ∀ (X : Program), X = ([Instr.isNil (pc + 7 + 1 + n + 2 + v1.length + 2 + 1 + n + 2 + v2.length + 1 + 4), Instr.byte 123,
+      Instr.isZeroMap (pc + 7 + 1 + n + 2 + v1.length + 2 + 1 + n + 2 + v2.length + 1 + 2),
+      Instr.save false, Instr.mapIter (.map k t), Instr.save false,
+      Instr.mapCheckKey (pc + 7 + 1 + n + 2 + v1.length + 2 + 1 + n + 2 + v2.length + 1)] ++
+    ([Instr.mapWriteKey (pc + 7 + 1 + n)] ++ keyCode k ++ [Instr.byte 58, Instr.mapValueNext] ++ v1) ++
+    [Instr.mapCheckKey (pc + 7 + 1 + n + 2 + v1.length + 2 + 1 + n + 2 + v2.length + 1), Instr.byte 44] ++
+    ([Instr.mapWriteKey (pc + 7 + 1 + n + 2 + v1.length + 2 + 1 + n)] ++ keyCode k ++
+      [Instr.byte 58, Instr.mapValueNext] ++ v2) ++
+    [Instr.goto (pc + 7 + 1 + n + 2 + v1.length), Instr.mapStop, Instr.drop2, Instr.byte 125,
+      Instr.goto (pc + 7 + 1 + n + 2 + v1.length + 2 + 1 + n + 2 + v2.length + 1 + 5), Instr.emptyObj]) →
+      pc + X.length = pc + 7 + 1 + n + 2 + v1.length + 2 + 1 + n + 2 + v2.length + 1 + 5 := by
+    intro X hX; subst hX; simp [hn] <;> omega
+  rw [hlen _ rfl]
   -- the specification
-  have hspec : encV o addr (.map .str t) (.map kvs) =
-      (encIt o t kvs).map fun es => JVal.obj ((if o.sortMapKeys then sortKV es else es).map (qk o)) := by
-    simp only [encV, keyTypeOK, if_true, encM_eq_encIt t kvs hC]
-    cases encIt o t kvs with
+  have hspec : encV o addr (.map k t) (.map kvs) =
+      (encIt o t (ktOf k) kvs).map fun es => JVal.obj ((if o.sortMapKeys then sortKV es else es).map (qk o)) := by
+    simp only [encV, keyTypeOK_sub hk, if_true, encM_eq_encIt hk t kvs hC]
+    cases encIt o t (ktOf k) kvs with
     | error e => rfl
-    | ok es => simp only [Except.bind, keyBodies_str, Except.map]
+    | ok es => simp only [Except.bind, keyBodies_sub hk, Except.map]
   rw [hspec]
-  have hneed : need t ≤ maxStack := by omega
-  have herrk : ∀ x ∈ kvs, ∀ e, encV o false t x.2 = .error e → e = .unsupportedValue :=
-    fun x hx e he => codeOK_err_kind (hall x hx) hneed he
   cases kvs with
   | nil =>
     constructor
@@ -147,17 +179,45 @@ theorem codeOK_map {t : GoType} (kvs : List (GoVal × GoVal)) (hC : ConfM .str t
       exact halts_cast h rfl rfl rfl (by cases o.sortMapKeys <;> simp [render, renderMembers, sortKV])
     · intro e he; simp only [encIt, Except.map] at he; cases he
   | cons e0 kvs' =>
-    -- the iterator the machine builds
-    generalize hit : (if o.sortMapKeys then sortIt (e0 :: kvs') else (e0 :: kvs')) = it
-    have hmem : ∀ x, x ∈ it ↔ x ∈ e0 :: kvs' := by
-      intro x; rw [← hit]; split
-      · exact mem_sortIt
-      · exact Iff.rfl
-    have hiter : step o (Instr.mapIter (.map .str t)) (pc + 4) r (r :: s) (b ++ [123]) =
+    simp only [List.isEmpty_cons, Bool.false_eq_true, if_false] at hs
+    have hneed : ∀ x ∈ e0 :: kvs', needV t x.2 ≤ maxStack := fun x hx => by have := needM_mem (t := t) _ x hx; omega
+    have herrk : ∀ x ∈ e0 :: kvs', ∀ e, encV o false t x.2 = .error e → e = .unsupportedValue :=
+      fun x hx e he => codeOK_err_kind (hall x hx) (hneed x hx) he
+    -- the iterator the machine builds, and the text it shows for each key
+    generalize hit : (if o.sortMapKeys then sortIt (rend k (e0 :: kvs')) else (e0 :: kvs')) = it
+    generalize hkt : (if o.sortMapKeys then iterKey else ktOf k) = kt
+    have hiter : step o (Instr.mapIter (.map k t)) (pc + 4) r (r :: s) (b ++ [123]) =
         .next (pc + 4 + 1) { r with q := some it } (r :: s) (b ++ [123]) := by
-      simp only [step, hg, List.isEmpty_cons, Bool.not_false, Bool.and_true, renderKeys_str t _ hC]
+      simp only [step, hg, List.isEmpty_cons, Bool.not_false, Bool.and_true, renderKeys_ok hk t _ hC]
       rw [← hit]
       cases o.sortMapKeys <;> rfl
+    -- every entry the iterator shows comes from the map
+    have hfrom : ∀ x ∈ it, ∃ e ∈ e0 :: kvs', x.2 = e.2 ∧ KeyShown o co k kt x := by
+      intro x hx
+      rw [← hit] at hx
+      rw [← hkt]
+      cases hsort : o.sortMapKeys with
+      | true =>
+        rw [hsort] at hx
+        simp only [if_true] at hx ⊢
+        obtain ⟨e, he, rfl⟩ := mem_rend (mem_sortIt.mp hx)
+        exact ⟨e, he, rfl, Or.inl ⟨hsort, rfl⟩⟩
+      | false =>
+        rw [hsort] at hx
+        simp only [Bool.false_eq_true, if_false] at hx ⊢
+        refine ⟨x, hx, rfl, Or.inr ⟨hsort, ConfM_keys _ hC x hx, ?_⟩⟩
+        obtain ⟨ks, h1, _⟩ := keyText_conf hk (ConfM_keys _ hC x hx)
+        simp [ktOf, h1]
+    have hne : it ≠ [] := by
+      intro h0
+      rw [← hit] at h0
+      cases hsort : o.sortMapKeys with
+      | true =>
+        rw [hsort] at h0
+        simp only [if_true] at h0
+        have : (GoVal.str (ktOf k e0), e0.2) ∈ sortIt (rend k (e0 :: kvs')) := mem_sortIt.mpr (by simp [rend])
+        rw [h0] at this; cases this
+      | false => rw [hsort] at h0; simp at h0
     have hsave1 : ∀ q bb, step o (.save false) q r s bb = .next (q + 1) r (r :: s) bb := by
       intro q bb
       simp only [step]
@@ -179,48 +239,50 @@ theorem codeOK_map {t : GoType} (kvs : List (GoVal × GoVal)) (hC : ConfM .str t
       refine halts_step (hA.get 4 (by omega) rfl) hiter ?_
       refine halts_step (hA.get 5 (by omega) rfl) (hsave2 _ _) ?_
       exact halts_cast h (by omega) rfl rfl rfl
-    have post : ∀ res rr bb, Halts o co fpv P (pc + 11 + v1.length + 6 + v2.length + 1 + 5) r s (bb ++ [125]) res →
-        Halts o co fpv P (pc + 11 + v1.length + 6 + v2.length + 1) rr ({ r with q := some it } :: r :: s) bb res := by
+    have post : ∀ res rr bb, Halts o co fpv P (pc + 7 + 1 + n + 2 + v1.length + 2 + 1 + n + 2 + v2.length + 1 + 5) r s (bb ++ [125]) res →
+        Halts o co fpv P (pc + 7 + 1 + n + 2 + v1.length + 2 + 1 + n + 2 + v2.length + 1) rr ({ r with q := some it } :: r :: s) bb res := by
       intro res rr bb h
       refine halts_step (hL6.get 1 (by omega) rfl) (by simp only [step]; rfl) ?_
       refine halts_step (hL6.get 2 (by omega) rfl) (by simp only [step]; rfl) ?_
       refine halts_step (hL6.get 3 (by omega) rfl) (by simp only [step]; rfl) ?_
       refine halts_step (hL6.get 4 (by omega) rfl) (by simp only [step]; rfl) ?_
       exact h
-    -- everything the iterator shows
-    have hkeys : ∀ x ∈ it, ∃ ks, x.1 = GoVal.str ks := fun x hx => ConfM_keys _ hC x ((hmem x).mp hx)
-    have hcode : ∀ x ∈ it, CodeOK o co t x.2 := fun x hx => hall x ((hmem x).mp hx)
-    have hroom : ({ r with q := some it } :: r :: s).length + need t ≤ maxStack := by simp; omega
-    have whole : (∀ ms, encIt o t it = .ok ms → ∀ res,
-          Halts o co fpv P (pc + 11 + v1.length + 6 + v2.length + 1 + 5) r s (b ++ [123] ++ emitM true (ms.map (qk o)) ++ [125]) res →
+    have hshown : ∀ x ∈ it, KeyShown o co k kt x := fun x hx => (hfrom x hx).choose_spec.2.2
+    have hcode : ∀ x ∈ it, CodeOK o co t x.2 := fun x hx => by
+      obtain ⟨e, he, h2, _⟩ := hfrom x hx
+      rw [h2]; exact hall e he
+    have hroom : ∀ x ∈ it, ({ r with q := some it } :: r :: s).length + needV t x.2 ≤ maxStack := fun x hx => by
+      obtain ⟨e, he, h2, _⟩ := hfrom x hx
+      have := needM_mem (t := t) _ e he
+      rw [h2]; simp; omega
+    have whole : (∀ ms, encIt o t kt it = .ok ms → ∀ res,
+          Halts o co fpv P (pc + 7 + 1 + n + 2 + v1.length + 2 + 1 + n + 2 + v2.length + 1 + 5) r s (b ++ [123] ++ emitM true (ms.map (qk o)) ++ [125]) res →
           Halts o co fpv P pc r s b res) ∧
-        (∀ e, encIt o t it = .error e → e = .unsupportedValue ∧ Halts o co fpv P pc r s b (.error (.enc e))) := by
+        (∀ e, encIt o t kt it = .error e → e = .unsupportedValue ∧ Halts o co fpv P pc r s b (.error (.enc e))) := by
       cases it with
-      | nil => exact absurd ((hmem e0).mpr (by simp)) (by simp)
+      | nil => exact absurd rfl hne
       | cons x it' =>
-        obtain ⟨k0, val0⟩ := x
-        obtain ⟨ks0, hks0⟩ := hkeys (k0, val0) (by simp)
-        simp only at hks0
-        subst hks0
-        obtain ⟨eok, eerr⟩ := entry_ok (o := o) (co := co) (fpv := fpv) (P := P) (sp := sp + 2) (pc + 7) (hv1 ▸ hE1)
-          { r with q := some ((GoVal.str ks0, val0) :: it') } ks0 val0 it' _ (b ++ [123]) hroom (hcode (.str ks0, val0) (by simp))
-        rw [hv1] at eok
-        obtain hloop := mapLoop_ok (o := o) (co := co) (fpv := fpv) (P := P) (sp := sp + 2)
-          (i := pc + 11 + v1.length + 6 + v2.length + 1) hL2 (hv2 ▸ hE2)
-          (by
-            rw [hv2]
-            have h := At.left (a := [Instr.goto (pc + 11 + v1.length)]) (c := [_, _, _, _, _]) hL6
-            have e : pc + 11 + v1.length + 2 + 4 + v2.length = pc + 11 + v1.length + 6 + v2.length := by omega
-            rw [e]; exact h)
-          { r with q := some ((GoVal.str ks0, val0) :: it') } _ hroom it' (fun x hx => hkeys x (by simp [hx])) (fun x hx => hcode x (by simp [hx])) (.val val0)
-        have hcheck : ∀ bb, step o (Instr.mapCheckKey (pc + 11 + v1.length + 6 + v2.length + 1)) (pc + 6)
-            { r with q := some ((GoVal.str ks0, val0) :: it') } ({ r with q := some ((GoVal.str ks0, val0) :: it') } :: r :: s) bb =
-            .next (pc + 6 + 1) { r with p := .val (.str ks0), q := some ((GoVal.str ks0, val0) :: it') }
-              ({ r with q := some ((GoVal.str ks0, val0) :: it') } :: r :: s) bb := by
+        obtain ⟨ka, val0⟩ := x
+        obtain ⟨eok, eerr⟩ := entry_ok (o := o) (co := co) hk (kt := kt) (fpv := fpv) (P := P) (sp := sp + 2) hlv' (pc + 7)
+          (by rw [hn, hv1]; exact hE1)
+          { r with q := some ((ka, val0) :: it') } ka val0 it' (hshown (ka, val0) (by simp)) _ (b ++ [123]) (hroom (ka, val0) (by simp))
+          (hcode (ka, val0) (by simp))
+        rw [hn, hv1] at eok
+        have hG : At P (pc + 7 + 1 + n + 2 + v1.length + 2 + 1 + n + 2 + v2.length) [Instr.goto (pc + 7 + 1 + n + 2 + v1.length)] :=
+          At.left (a := [Instr.goto (pc + 7 + 1 + n + 2 + v1.length)]) (c := [_, _, _, _, _]) hL6
+        obtain hloop := mapLoop_ok (o := o) (co := co) hk (kt := kt) (fpv := fpv) (P := P) (sp := sp + 2)
+          (i := pc + 7 + 1 + n + 2 + v1.length + 2 + 1 + n + 2 + v2.length + 1) hlv' hL2
+          (by rw [hn, hv2]; exact hE2) (by rw [hn, hv2]; exact hG)
+          { r with q := some ((ka, val0) :: it') } _ it' (fun x hx => hshown x (by simp [hx])) (fun x hx => hcode x (by simp [hx]))
+          (fun x hx => hroom x (by simp [hx])) (.val val0)
+        have hcheck : ∀ bb, step o (Instr.mapCheckKey (pc + 7 + 1 + n + 2 + v1.length + 2 + 1 + n + 2 + v2.length + 1)) (pc + 6)
+            { r with q := some ((ka, val0) :: it') } ({ r with q := some ((ka, val0) :: it') } :: r :: s) bb =
+            .next (pc + 6 + 1) { r with p := .val ka, q := some ((ka, val0) :: it') }
+              ({ r with q := some ((ka, val0) :: it') } :: r :: s) bb := by
           intro bb; simp only [step]
         constructor
         · intro ms hms res h
-          simp only [encIt, entrySpec, iterKey] at hms
+          simp only [encIt, entrySpec] at hms
           cases hv : encV o false t val0 with
           | error x => rw [hv] at hms; simp only [Except.map] at hms; cases hms
           | ok jv =>
@@ -236,7 +298,7 @@ theorem codeOK_map {t : GoType} (kvs : List (GoVal × GoVal)) (hC : ConfM .str t
               refine halts_cast ((hloop _).1 mr hr res (fun rr => post res rr _ ?_)) (by omega) rfl rfl rfl
               exact halts_cast h rfl rfl rfl (by simp [emitM, qk])
         · intro e hms
-          simp only [encIt, entrySpec, iterKey] at hms
+          simp only [encIt, entrySpec] at hms
           cases hv : encV o false t val0 with
           | error x =>
             rw [hv] at hms
@@ -251,42 +313,49 @@ theorem codeOK_map {t : GoType} (kvs : List (GoVal × GoVal)) (hC : ConfM .str t
             split at hms
             · rename_i x hr
               injection hms with hms; subst hms
-              obtain ⟨h1, h2⟩ := (hloop (b ++ [123] ++ memb (quoteBody o.escapeHTML o.validateString ks0, jv))).2 _ hr
+              obtain ⟨h1, h2⟩ := (hloop (b ++ [123] ++ memb (quoteBody o.escapeHTML o.validateString (kt (ka, val0)), jv))).2 _ hr
               refine ⟨h1, pre _ ?_⟩
               refine halts_step (hA.get 6 (by omega) rfl) (hcheck _) ?_
               exact eok jv hv _ (halts_cast h2 (by omega) rfl rfl rfl)
             · cases hms
     obtain ⟨wok, werr⟩ := whole
+    -- the iterator's entries against the specification's
+    have hite_ok : ∀ es, encIt o t (ktOf k) (e0 :: kvs') = .ok es → encIt o t kt it = .ok (if o.sortMapKeys then sortKV es else es) := by
+      intro es hes
+      rw [← hit, ← hkt]
+      cases o.sortMapKeys with
+      | true =>
+        simp only [if_true]
+        exact encIt_sort _ _ (by rw [encIt_rend]; exact hes)
+      | false => exact hes
+    have hite_err : ∀ e, encIt o t (ktOf k) (e0 :: kvs') = .error e → ∃ e'', encIt o t kt it = .error e'' := by
+      intro e hes
+      rw [← hit, ← hkt]
+      cases o.sortMapKeys with
+      | true =>
+        simp only [if_true]
+        exact encIt_sort_err (by rw [encIt_rend]; exact hes)
+      | false => exact ⟨_, hes⟩
     constructor
     · intro j hj res h
-      cases hes : encIt o t (e0 :: kvs') with
+      cases hes : encIt o t (ktOf k) (e0 :: kvs') with
       | error e => rw [hes] at hj; cases hj
       | ok es =>
         rw [hes] at hj
         simp only [Except.map] at hj
         injection hj with hj; subst hj
-        have hite : encIt o t it = .ok (if o.sortMapKeys then sortKV es else es) := by
-          rw [← hit]
-          cases o.sortMapKeys with
-          | true => exact encIt_sort _ _ hes
-          | false => exact hes
-        refine wok _ hite res ?_
+        refine wok _ (hite_ok es hes) res ?_
         exact halts_cast h rfl rfl rfl (by simp [render_obj])
     · intro e hj
-      cases hes : encIt o t (e0 :: kvs') with
+      cases hes : encIt o t (ktOf k) (e0 :: kvs') with
       | ok es => rw [hes] at hj; cases hj
       | error e' =>
         rw [hes] at hj
         simp only [Except.map] at hj
         injection hj with hj; subst hj
-        have hk := encIt_err_kind (o := o) (t := t) _ herrk _ hes
-        subst hk
-        have hite : ∃ e'', encIt o t it = .error e'' := by
-          rw [← hit]
-          cases o.sortMapKeys with
-          | true => exact encIt_sort_err hes
-          | false => exact ⟨_, hes⟩
-        obtain ⟨e'', he''⟩ := hite
+        have hk2 := encIt_err_kind (o := o) (t := t) _ herrk _ hes
+        subst hk2
+        obtain ⟨e'', he''⟩ := hite_err _ hes
         obtain ⟨h1, h2⟩ := werr _ he''
         subst h1
         exact ⟨rfl, h2⟩
